@@ -110,10 +110,18 @@ class Extractor:
                 ty = a0.get('place', {}).get('ty', '') or a0.get('ty', '')
                 events.setdefault(s, []).append((rpo[bi], bi, 'hole', (x, ty)))
                 continue
-            if re.search(r'TokenStreamExt::append_all|Extend<.*>>::extend|TokenStreamExt::append', gp):
+            if re.search(r'TokenStreamExt::append_all|Extend(<.*>>)?::extend|TokenStreamExt::append', gp) and t['args']:
                 s = self._stream_arg(f, t['args'][0])
                 if s is not None:
                     events.setdefault(s, []).append((rpo[bi], bi, 'opaque', short(gp)))
+                continue
+            # any other call that is handed a mutable reference to a stream may append to it: not seen through (fail closed)
+            for a_ in t['args']:
+                pl_ = a_.get('place') or {}
+                if a_.get('k') in ('Move', 'Copy') and not pl_.get('proj') and re.match(r'^&(\'\w+ )?mut proc_macro2::TokenStream$', pl_.get('ty', '')):
+                    s = self._stream_arg(f, a_)
+                    if s is not None:
+                        events.setdefault(s, []).append((rpo[bi], bi, 'opaque', 'stream passed to ' + short(gp)))
         out = {}
         self.cache[f.id] = out
         self._loops = loops
